@@ -486,3 +486,72 @@ func TestVerifC13Store(t *testing.T) {
 		Assumptions: []string{"real goroutines: which callers join a running flight is decided by the Go scheduler; the loader runs under the shard lock, so only callers that missed before it was taken can join", "virtual clock (hook H1) so that a load and a Set at the same instant get the same deadline"},
 	})
 }
+
+// C13 (c) — concurrent flights on different keys of one Group: a caller must always get the
+// result produced for ITS key (pooled call records are reused across keys).
+
+type c13sCase struct {
+	Goroutines int `json:"goroutines"`
+	Keys       int `json:"keys"`
+	Calls      int `json:"calls"` // per goroutine
+	Spin       int `json:"spin"`  // Gosched calls inside the function (keeps flights open)
+}
+
+func genC13s(t *rapid.T) c13sCase {
+	return c13sCase{
+		Goroutines: rapid.SampledFrom([]int{8, 32, 64, 128}).Draw(t, "goroutines"),
+		Keys:       rapid.IntRange(2, 12).Draw(t, "keys"),
+		Calls:      rapid.SampledFrom([]int{2000, 10000, 30000}).Draw(t, "calls"),
+		Spin:       rapid.SampledFrom([]int{0, 1, 3}).Draw(t, "spin"),
+	}
+}
+
+func execC13s(c c13sCase, x *verifkit.Ctx) *verifkit.Failure {
+	g := NewGroup[int, int]()
+	var bad atomic.Pointer[verifkit.Failure]
+	var shared atomic.Int64
+	var wg sync.WaitGroup
+	for w := 0; w < c.Goroutines; w++ {
+		w := w
+		wg.Add(1)
+		go func() {
+			defer wg.Done()
+			rnd := uint32(w*2654435761 + 12345)
+			for i := 0; i < c.Calls && bad.Load() == nil; i++ {
+				rnd = rnd*1664525 + 1013904223
+				k := int(rnd>>10) % c.Keys
+				ran := false
+				v, err, _ := g.Do(k, func() (int, error) {
+					ran = true
+					for j := 0; j < c.Spin; j++ {
+						runtime.Gosched()
+					}
+					return k*1000003 + 17, nil
+				})
+				if !ran {
+					shared.Add(1)
+				}
+				if err != nil || v != k*1000003+17 {
+					bad.CompareAndSwap(nil, verifkit.Failf("flight/foreign-result", "Do(key %d) returned (%d, %v): the value made for key %d (this caller ran the function itself: %v; %d goroutines, %d keys)", k, v, err, (v-17)/1000003, ran, c.Goroutines, c.Keys))
+				}
+			}
+		}()
+	}
+	wg.Wait()
+	if f := bad.Load(); f != nil {
+		return f
+	}
+	if shared.Load() > 0 {
+		x.Class("flights-shared")
+		x.NonTrivial()
+	}
+	return nil
+}
+
+func TestVerifC13GroupStress(t *testing.T) {
+	verifkit.Run(t, verifkit.Spec[c13sCase]{
+		ID: "C13", Gen: genC13s, Exec: execC13s, Nondet: true,
+		Rule:        "C13(c): rapid draws 8..128 goroutines hammering Group.Do over 2..12 keys (2 000..30 000 calls each, the function yields 0..3 times); every result must be the one made for the caller's key; non-trivial = some callers shared a flight",
+		Assumptions: []string{"real goroutines; which callers share a flight and when pooled call records are recycled is up to the Go scheduler"},
+	})
+}
